@@ -346,7 +346,6 @@ fn do_step(w: &mut World, st: &Value, publish_first: bool) -> Result<Out, String
 
 fn run_one(beh: &Value, prop: &str, seed: u64, i: usize) -> Result<u64, Fail> {
     let steps = beh.a("h");
-    let e = beh.g("e");
     let n = steps.len();
     let mut w = World::new();
     let mut drift = 0u64;
@@ -363,7 +362,9 @@ fn run_one(beh: &Value, prop: &str, seed: u64, i: usize) -> Result<u64, Fail> {
         }
     };
     for (k, st) in steps.iter().enumerate() {
-        let last = k + 1 == n;
+        let fat = st.get("sv").is_some();
+        let last = k + 1 == n || fat; // compare here: last step, or every step of a Fat history
+        let e = if fat { st } else { beh.g("e") };
         let o = st.s("o").to_string();
         let sess_op = o == "action" || o == "receive" || o == "session";
         // real state before the (last) step
